@@ -342,19 +342,60 @@ fn case<S: ShortGroupSignatureScheme>(v: &Value) -> Value {
                    "n_proofs": p.proofs.len()})
         }
         "tamper" => {
-            // single-site mutations of the presentation through its JSON tree; a mutation that fails to decode counts as detected
-            let tree = match serde_json::to_value(&p) {
+            // single-site mutations of the presentation through its CBOR value tree (scalars and points are
+            // arrays of 32 / 48 / 96 byte values there); a mutation that fails to decode counts as detected
+            use serde_cbor::Value as CV;
+            fn cleaves(v: &CV, path: &mut Vec<String>, out: &mut Vec<(Vec<String>, Vec<u8>)>) {
+                match v {
+                    CV::Array(a) => {
+                        let bytes: Option<Vec<u8>> = a.iter().map(|x| if let CV::Integer(i) = x { if (0..256).contains(i) { Some(*i as u8) } else { None } } else { None }).collect();
+                        match bytes {
+                            Some(b) if b.len() == 32 || b.len() == 48 || b.len() == 96 => out.push((path.clone(), b)),
+                            _ => {
+                                for (i, x) in a.iter().enumerate() {
+                                    path.push(i.to_string());
+                                    cleaves(x, path, out);
+                                    path.pop();
+                                }
+                            }
+                        }
+                    }
+                    CV::Map(m) => {
+                        for (k, x) in m.iter() {
+                            let ks = match k { CV::Text(t) => t.clone(), other => format!("{other:?}") };
+                            path.push(ks);
+                            cleaves(x, path, out);
+                            path.pop();
+                        }
+                    }
+                    _ => {}
+                }
+            }
+            fn cset(v: &mut CV, path: &[String], new: &[u8]) {
+                if path.is_empty() {
+                    *v = CV::Array(new.iter().map(|b| CV::Integer(*b as i128)).collect());
+                    return;
+                }
+                match v {
+                    CV::Array(a) => cset(&mut a[path[0].parse::<usize>().unwrap()], &path[1..], new),
+                    CV::Map(m) => {
+                        let key = m.keys().find(|k| match k { CV::Text(t) => *t == path[0], other => format!("{other:?}") == path[0] }).cloned().unwrap();
+                        cset(m.get_mut(&key).unwrap(), &path[1..], new)
+                    }
+                    _ => {}
+                }
+            }
+            let tree = match serde_cbor::value::to_value(&p) {
                 Ok(t) => t,
-                Err(_) => return json!({"r":"ok","world":"ok","create":"ok","verify":base,"tamper":"no-json"}),
+                Err(_) => return json!({"r":"ok","world":"ok","create":"ok","verify":base,"tamper":"no-cbor"}),
             };
-            let can_roundtrip = serde_json::from_str::<Presentation<S>>(&tree.to_string()).is_ok();
-            let mut ls = vec![];
-            leaves(&tree, &mut vec![], &mut ls);
+            let can_roundtrip = serde_cbor::value::from_value::<Presentation<S>>(tree.clone()).map(|q| verdict(&q, &w.schema, &w.nonce) == "ok").unwrap_or(false);
+            let mut bl = vec![];
+            cleaves(&tree, &mut vec![], &mut bl);
             let max = v["action"]["max"].as_u64().unwrap_or(60) as usize;
             let mut results = vec![];
-            let hexleaves: Vec<(Vec<String>, String)> = ls.iter().filter_map(|(p, x)| x.as_str().map(|s| (p.clone(), s.to_string()))).collect();
+            let hexleaves: Vec<(Vec<String>, String)> = bl.iter().map(|(p, b)| (p.clone(), hex::encode(b))).collect();
             let mut order: Vec<usize> = (0..hexleaves.len()).collect();
-            // deterministic shuffle
             for i in (1..order.len()).rev() {
                 let j = rng.gen_range(0..=i);
                 order.swap(i, j);
@@ -368,14 +409,20 @@ fn case<S: ShortGroupSignatureScheme>(v: &Value) -> Value {
                             continue;
                         }
                         let mut t2 = tree.clone();
-                        set_at(&mut t2, path, json!(nh));
-                        let out = match serde_json::from_str::<Presentation<S>>(&t2.to_string()) {
-                            Ok(q) => verdict(&q, &w.schema, &w.nonce),
-                            Err(_) => "decode-err",
+                        cset(&mut t2, path, &hex::decode(&nh).unwrap());
+                        let out = match catch_unwind(AssertUnwindSafe(|| serde_cbor::value::from_value::<Presentation<S>>(t2))) {
+                            Ok(Ok(q)) => verdict(&q, &w.schema, &w.nonce),
+                            Ok(Err(_)) => "decode-err",
+                            Err(_) => "decode-panic",
                         };
                         results.push(json!({"path": path.join("/"), "kind": kind, "len": h.len() / 2, "out": out}));
                     }
                 }
+            }
+            // inner ids of proofs
+            for k in p.proofs.keys() {
+                let tj = serde_json::to_value(&p.proofs[k]);
+                let _ = tj;
             }
             // structural mutations: remove each proof; swap two proofs' bodies; drop the disclosed map entry
             for k in p.proofs.keys() {
